@@ -19,3 +19,4 @@ package pot
 //@   modifies Pot, Level, map(map[int]int64), elems(*Level), elems(*Pot), elems(int)
 //@   allocs
 //@   ensures WFLL(ll)
+//@   ensures forall k :: 0 <= k && k < len(res) ==> res[k] != nil
